@@ -230,6 +230,7 @@ def jobs(tier):
     out.append(Job('C10', 's1.timeout_retry', t_timeout_retry, dict(T='1/4'), witnesses=W))
     out += matrix_jobs('C10', 'm2', tier)
     out += matrix_jobs('C10', 'm3', tier)
+    out += matrix_jobs('C10', 'm4', tier)
     from ._common import mk
     from .. import scenlib as S
     out += mk('C10', 'timeout_during_wal', S.timeout_during_wal(), witnesses=('timeout fired', 'no timeout'))
